@@ -272,7 +272,7 @@ def rule_stream_flush(chk, fb, eps):
     rs = chk.rule(
         "C13.b.stream",
         "compound-file streams are flushed and checked: every cfb stream created on the save path and written to is flushed with the result used, after its last write, on every path",
-        floor=2,
+        floor=1,
     )
     seen = set()
     for root in eps:
